@@ -146,6 +146,7 @@ class Walker:
         self.fold = fold or (lambda e: None)     # expr -> True/False/None (constant guards)
         self._phi = itertools.count()
         self.cls = None
+        self.items = {}                 # loop number -> iterable expression
 
     # ------------------------------------------------------------------ API
     def paths(self, func, bind=None, cls=None, depth=0):
@@ -417,6 +418,7 @@ class Walker:
     def _loop(self, s, st, d, kind, target, itr, test):
         assigned = sorted(_assigned_names(s.body) | (_target_names(target) if target is not None else set()))
         n = next(self._phi)
+        self.items[n] = itr
         body_st = Path()
         body_st.env = dict(st.env)
         body_st.guards = []
